@@ -58,29 +58,12 @@ def early_ack(prefix, impl=None, spec=None):
     return any(op.split()[1:2] == ['early'] for op in prefix)
 
 
-def dup_filter_cb(prefix, impl, spec):
-    """E9: one request's callback registered under two filters that match the same topic is invoked
-    once per filter.  The deviation is exactly that: dropping repeated identical CB items satisfies the oracle."""
-    if impl is None or spec is None:
-        return False
-    items = impl.split(';')
-    seen, out = set(), []
-    for it in items:
-        if it.startswith('CB '):
-            w = it.split()
-            key = (w[1], w[6], w[8]) if len(w) >= 9 else it
-            if key in seen:
-                continue
-            seen.add(key)
-        out.append(it)
-    return len(out) != len(items) and client_oracle(prefix[-1], ';'.join(out), spec)
-
-
 CLIENT_ASSUMPTIONS = [
     "one event = one atomic step; the ack-before-registration interleaving is an explicit composite event forced on the real code through the verif ack-window hook",
     "the peer is scripted over TCP on 127.0.0.1; a PINGREQ/PINGRESP barrier from the peer bounds each event",
     "the interleaving between packets the peer receives and callbacks firing inside one event is not observable: outputs are compared as (packets in order, completions in order, message callbacks as a multiset)",
     "ack queues are the FIFO lists of Spec.Fifo (justified by C13); completion order is the FIFO order (the latest the property permits)",
+    "a message callback id on an op line stands for the Subscribe request (service.subscribe allocates one &onPublish pointer per call, and the client invokes each pointer once per message): a Subscribe line that reuses a callback id of its episode is refused (bad-op) by harness and driver alike",
 ]
 
 
@@ -90,7 +73,7 @@ def mk(pid, runs):
     register(Prop(pid, 'Mqtt.Properties.' + pid, ['client', 'ackq'], runs=runs,
                   oracle=by_core({'client': client_oracle, 'ackq': ackq_oracle}),
                   nontrivial=by_core({'client': client_nontrivial, 'ackq': ackq_nontrivial}),
-                  spec_total=False, classes={'early_ack': early_ack, 'dup_filter_cb': dup_filter_cb},
+                  spec_total=False, classes={'early_ack': early_ack},
                   assumptions=CLIENT_ASSUMPTIONS, trusted=COMMON_TRUSTED))
 
 
@@ -111,5 +94,5 @@ if _c02 is not None:
                                    Run('ackq', quick=40000, thorough=300000, seeds_thorough=4)]
     _c02.oracle = by_core({'broker': _pb.broker_oracle, 'client': client_oracle, 'ackq': ackq_oracle})
     _c02.nontrivial = by_core({'broker': _pb.broker_nontrivial, 'client': client_nontrivial, 'ackq': ackq_nontrivial})
-    _c02.classes = dict(_c02.classes, early_ack=early_ack, dup_filter_cb=dup_filter_cb)
+    _c02.classes = dict(_c02.classes, early_ack=early_ack)
     _c02.assumptions = list(_c02.assumptions) + CLIENT_ASSUMPTIONS
